@@ -416,7 +416,7 @@ def run_batch(ctx, cases, label):
     jobs = [job_of(c) for c in cases]
     nshard = min(core.NCPU, max(1, len(jobs)))
     idx = [list(range(len(jobs)))[i::nshard] for i in range(nshard)]
-    results = sc.run_workers("pipeline_worker", [{"jobs": [jobs[i] for i in ids]} for ids in idx], timeout=1500,
+    results = sc.run_workers("pipeline_worker", [{"jobs": [jobs[i] for i in ids]} for ids in idx], timeout=900,
                              hashseeds=[rng.randrange(1, 10**6) for _ in idx])
     impl = [None] * len(jobs)
     for ids, (status, res) in zip(idx, results):
